@@ -1,0 +1,16 @@
+//go:build verif
+
+// Contracts (machine-checked by /verif/engine, see /verif/DESIGN.md). Comment-only file.
+package command
+
+// ---- C23: an alias is as restricted as the command it stands for -------------------------------------------------------
+// The alias node built for RegisterWithAliases copies the original's requirement whenever there is one - whether or not the
+// root literal has an executor of its own - so the per-player filter of the command tree hides an alias exactly when it
+// hides the primary name.
+//@ func (*Manager).shallowCopy
+//@   props C23
+//@   at-call Requirement#1 as rq
+//@   at-call Requirement#2 as rq2
+//@   at-call Requires as req: assert [the-originals-requirement] called(rq) && !isnil(res(rq)) && called(rq2)
+//@   at-call BuildLiteral as build: assert [requirement-copied-before-the-node-is-built] called(rq) && (!isnil(res(rq)) ==> called(req))
+//@   ensures [alias-keeps-the-requirement] called(rq) && called(build)
